@@ -86,6 +86,9 @@ SCRIPTS = {
     "plain_notifa": ("from pedal import *\nrun()\n"),
     # measures statement coverage of the student's program with the sandbox's coverage tracer and demands 90 %
     "cover": ("from pedal import *\nfrom pedal.sandbox.commands import start_trace\nstart_trace('coverage')\nstudent = run()\nensure_coverage(.9)\n"),
+    # graded through the VPL environment (its resolver prints "Grade :=>> N" scaled by a maximum score the script may set)
+    "vplmax@vpl": ("from pedal import *\nfrom pedal.environments.vpl import set_maximum_score\nset_maximum_score(100)\nset_success()\nresolve()\n"),
+    "vplplain@vpl": ("from pedal import *\nset_success()\nresolve()\n"),
     "raiser_b": ("from pedal import *\ndef broken(x):\n    return int('not a number (script B)')\n"
                  "mock_function('len', broken)\nrun()\n"),
 }
@@ -111,8 +114,28 @@ def next_pool_position(R):
             R._tool_data["questions"] = saved_data
 
 
+def grade_vpl(script_id, sub_id):
+    """One grading through the VPL environment (constructed directly, as a VPL evaluate script does)."""
+    import io
+    from contextlib import redirect_stdout
+    from pedal.environments.vpl import VPLEnvironment
+    captured = io.StringIO()
+    out = {"error": None, "label": None, "title": None, "message": None, "correct": None, "score": None, "student_output": None}
+    with redirect_stdout(captured):
+        try:
+            env = VPLEnvironment(main_code=SUBMISSIONS[sub_id], main_file="answer.py", instructor_file="on_run.py")
+            namespace = dict(env.fields)
+            exec(compile(SCRIPTS[script_id], "on_run.py", "exec"), namespace)
+        except Exception as e:
+            out["error"] = type(e).__name__
+    out["output"] = captured.getvalue()
+    return out
+
+
 def grade(script_id, sub_id):
     """One grading in this process; returns the projected result."""
+    if script_id.endswith("@vpl"):
+        return grade_vpl(script_id, sub_id)
     from pedal.command_line.modes import Bundle
     from pedal.core.submission import Submission
 
@@ -215,7 +238,7 @@ def baseline_chunk(pairs, extra):
     return [(tuple(p), baseline(p)) for p in pairs]
 
 
-KEYS = ["label", "title", "message", "correct", "score", "student_output", "error"]
+KEYS = ["label", "title", "message", "correct", "score", "student_output", "error", "output"]
 
 
 def history_chunk(cases, extra):
